@@ -466,6 +466,29 @@ def _callable(interp, args, kwargs):
     return False
 
 
+def _unicodedata_normalize(interp, args, kwargs):
+    """Normalisation maps some strings to different strings: on symbolic text the result is a *different* symbolic
+    string (a transform of the input), on concrete text the host function."""
+    import unicodedata
+
+    form, text = args[0], args[1]
+    if isinstance(form, str) and isinstance(text, str):
+        return host_call(interp, unicodedata.normalize, [form, text], {})
+    from .values import Atom, sstr
+
+    interp.emit("str_transform", op=f"unicodedata.normalize({form!r})", value=text)
+    return sstr(Atom(f"normalize[{form}]({text!r})", nonempty=None))
+
+
+def _unicodedata_is_normalized(interp, args, kwargs):
+    import unicodedata
+
+    form, text = args[0], args[1]
+    if isinstance(form, str) and isinstance(text, str):
+        return host_call(interp, unicodedata.is_normalized, [form, text], {})
+    return Unknown(("is_normalized", repr(form), repr(text)), f"is_normalized({form!r}, {text!r})")
+
+
 def _dict_fromkeys(interp, args, kwargs):
     keys = interp.drain(args[0])
     val = args[1] if len(args) > 1 else None
@@ -480,6 +503,8 @@ def _dict_fromkeys(interp, args, kwargs):
 
 MODELS: dict[str, Any] = {
     "builtins.dict.fromkeys": _dict_fromkeys,
+    "unicodedata.normalize": _unicodedata_normalize,
+    "unicodedata.is_normalized": _unicodedata_is_normalized,
     "operator.attrgetter": _attrgetter,
     "operator.itemgetter": _itemgetter,
     "operator.methodcaller": _methodcaller,
